@@ -919,7 +919,7 @@ class Plucker(SMUserList):
         intersections = []
         
         # reshape, top row is minimum, bottom row is maximum
-        bounds23 = bounds.reshape((3, 2))
+        bounds23 = base.getvector(bounds, 6).reshape((3, 2))
         
         for face in range(0, 6):
             # for each face of the bounding volume
